@@ -77,6 +77,13 @@ QueryTruth(kv, q, a) ==
     ELSE IF q.q = "valuex" THEN a # "true"
     ELSE NonexistenceStatementTrue(kv, q.k, a)
 
+\* an in-scope sorted write set verified through the multi-proof and through the per-path verifier: both accept and
+\* both give the root of ApplyOps(kv, ops)
+UpdViaMultiOk(kv, u) ==
+    /\ u.multiRes = "Ok" /\ u.pathRes = "Ok"
+    /\ KvOf(u.newKv) = ApplyOps(kv, u.ops)
+    /\ u.multiRootMatches /\ u.pathRootMatches
+
 MultiHonestOk(r) ==
     LET kv == KvOf(r.kv)
         covered(k) == \E i \in 1..Len(r.paths) : HasPrefix(k, r.paths[i])
@@ -91,10 +98,8 @@ MultiHonestOk(r) ==
             IN q.ans = e /\ q.ansIdx = e
        \* a malformed operation list (unsorted, duplicated or out-of-scope key) gets an error, never a root or a panic (C18)
        /\ "updBad" \in DOMAIN r => r.updBad.res \notin {"Ok", "PANIC"}
-       /\ "upd" \in DOMAIN r =>
-            /\ r.upd.multiRes = "Ok" /\ r.upd.pathRes = "Ok"
-            /\ KvOf(r.upd.newKv) = ApplyOps(kv, r.upd.ops)
-            /\ r.upd.multiRootMatches /\ r.upd.pathRootMatches
+       /\ "upd" \in DOMAIN r => UpdViaMultiOk(kv, r.upd)
+       /\ "upds" \in DOMAIN r => \A i \in 1..Len(r.upds) : UpdViaMultiOk(kv, r.upds[i])
 
 MultiMutOk(r) ==
     LET kv == KvOf(r.kv) IN
